@@ -314,7 +314,8 @@ impl Panicked {
     /// true if the panic originated in redb source (or std, reached from redb), false if it is the
     /// harness' own assertion
     pub fn in_redb(&self) -> bool {
-        !self.location.contains("/verif/")
+        // the harness crate's own files have relative paths ("src/..."); redb's are "/repo/src/..."
+        !(self.location.contains("/verif/") || self.location.starts_with("src/"))
     }
     pub fn short(&self) -> String {
         let mut m = self.message.clone();
